@@ -106,7 +106,7 @@ sp_ztrsv(char *uplo, char *trans, char *diag, SuperMatrix *L,
     /* Test the input parameters */
     *info = 0;
     if ( !lsame_(uplo,"L") && !lsame_(uplo, "U") ) *info = -1;
-    else if ( !lsame_(trans, "N") && !lsame_(trans, "T") ) *info = -2;
+    else if ( !lsame_(trans, "N") && !lsame_(trans, "T") && !lsame_(trans, "C") ) *info = -2;
     else if ( !lsame_(diag, "U") && !lsame_(diag, "N") ) *info = -3;
     else if ( L->nrow != L->ncol || L->nrow < 0 ) *info = -4;
     else if ( U->nrow != U->ncol || U->nrow < 0 ) *info = -5;
@@ -330,10 +330,10 @@ sp_ztrsv(char *uplo, char *trans, char *diag, SuperMatrix *L,
 
 		solve_ops += 8 * (nsupr - nsupc) * nsupc;
 
-		for (jcol = fsupc; jcol < L_FST_SUPC(k+1); jcol++) {
+		for (jcol = fsupc; jcol < L_LAST_SUPC(k); jcol++) {
 		    iptr = istart + nsupc;
 		    for (i = L_NZ_START(jcol) + nsupc; 
-				i < L_NZ_START(jcol+1); i++) {
+				i < L_NZ_END(jcol); i++) {
 			irow = L_SUB(iptr);
                         zz_conj(&temp, &Lval[i]);
 			zz_mult(&comp_zero, &x[irow], &temp);
@@ -362,13 +362,13 @@ sp_ztrsv(char *uplo, char *trans, char *diag, SuperMatrix *L,
 	    
 	    for (k = 0; k <= Lstore->nsuper; k++) {
 	    	fsupc = L_FST_SUPC(k);
-	    	nsupr = L_SUB_START(fsupc+1) - L_SUB_START(fsupc);
-	    	nsupc = L_FST_SUPC(k+1) - fsupc;
+	    	nsupr = L_SUB_END(fsupc) - L_SUB_START(fsupc);
+	    	nsupc = L_LAST_SUPC(k) - fsupc;
 	    	luptr = L_NZ_START(fsupc);
 
-		for (jcol = fsupc; jcol < L_FST_SUPC(k+1); jcol++) {
+		for (jcol = fsupc; jcol < L_LAST_SUPC(k); jcol++) {
 		    solve_ops += 8*(U_NZ_START(jcol+1) - U_NZ_START(jcol));
-		    for (i = U_NZ_START(jcol); i < U_NZ_START(jcol+1); i++) {
+		    for (i = U_NZ_START(jcol); i < U_NZ_END(jcol); i++) {
 			irow = U_SUB(i);
                         zz_conj(&temp, &Uval[i]);
 			zz_mult(&comp_zero, &x[irow], &temp);
@@ -563,7 +563,11 @@ sp_zgemv(char *trans, doublecomplex alpha, SuperMatrix *A, doublecomplex *x,
 		temp = comp_zero;
 		for (i = Astore->colptr[j]; i < Astore->colptr[j+1]; ++i) {
 		    irow = Astore->rowind[i];
-		    zz_mult(&temp1, &Aval[i], &x[irow]);
+		    if ( lsame_(trans, "C") ) { /* A**H: conjugate the entry */
+			zz_conj(&temp1, &Aval[i]);
+			zz_mult(&temp1, &temp1, &x[irow]);
+		    } else
+			zz_mult(&temp1, &Aval[i], &x[irow]);
 		    z_add(&temp, &temp, &temp1);
 		}
 		zz_mult(&temp1, &alpha, &temp);
